@@ -51,7 +51,9 @@ CMDS = ["G1 X{a} Y{b}", "G0 Z{a}", "G1 X{a} F{b}", "M104 S{a}", "M106 S{a}", "G9
         "G1 X{a}.125 Y{b}.5 Z{a}.25 E{b}.0625 F{a} A{b} B{a} C{b}",
         "M117 printing layer {a} of {b} please wait",
         # '/' and '*' are ordinary characters of a command's text
-        "M117 Layer {a}/{b}", "M23 /gcodes/part{a}.g", "M117 {a}% *done* {b}"]
+        "M117 Layer {a}/{b}", "M23 /gcodes/part{a}.g", "M117 {a}% *done* {b}",
+        # layer changes with recurring heights (objects printed one after the other)
+        "G1 Z0.{c}", "G1 Z0.{c} F300"]
 
 
 def strip_comment(line):
@@ -135,8 +137,13 @@ def _run_job(case, budget, _patched, _barrier, _lock):
     lat = case["lat"] or [0]
 
     def new_fw(corrupt):
-        return Firmware(greeting=case["greeting"], dialect=case["dialect"],
-                        corrupt=set(corrupt), latency=lambda i: lat[i % len(lat)])
+        f = Firmware(greeting=case["greeting"], dialect=case["dialect"],
+                     corrupt=set(corrupt), latency=lambda i: lat[i % len(lat)])
+        # (only with a device that answers without delay: that is the schedule meant)
+        # (and with at most one corrupted transmission: resend storms under
+        # this schedule take tens of seconds without adding anything)
+        f.sync_reply = bool(case.get("sync_reply")) and not any(lat) and len(corrupt) <= 1
+        return f
     fw = new_fw(case["corrupt"])
     errors = []
     ctxmgr = contextlib.nullcontext() if _patched else patched_serial(fw)
@@ -157,7 +164,7 @@ def _run_job(case, budget, _patched, _barrier, _lock):
         while fw.pending() and time.time() - t0 < 10:
             time.sleep(0.002)
 
-    def stream(p, fw, job, barrier=None):
+    def stream(p, fw, job, barrier=None, append=None):
         lines = render_job(job)
         g = gcoder.GCode(lines)
         expected = [strip_comment(l) for l in lines]
@@ -170,6 +177,9 @@ def _run_job(case, budget, _patched, _barrier, _lock):
         started = p.startprint(g)
         if not started:
             raise HarnessError("startprint refused")
+        for cmd in (append or ()):
+            # commands handed to send() while the job is running are appended to it
+            p.send(cmd)
         t0 = time.time()
         last_progress = (-1, -1, -1)
         last_change = time.time()
@@ -200,7 +210,13 @@ def _run_job(case, budget, _patched, _barrier, _lock):
         p.errorcb = errors.append
         try:
             connect(p, fw)
-            expected, status, printing_after = stream(p, fw, case["job"], _barrier)
+            app = list(case.get("append") or ())
+            if len([l for l in render_job(case["job"]) if strip_comment(l)]) < 4 or not any(lat[:2]):
+                app = []          # too short a job: it could be over before send() is called
+            expected, status, printing_after = stream(p, fw, case["job"], _barrier, app)
+            expected = expected + app
+            if app:
+                fw.appended = True
             sec = case.get("second")
             if sec and status == "ok" and not _patched:
                 # the SAME sender object streams a second job: on the same
@@ -297,6 +313,10 @@ def _judge(case, result, cl):
     fw, expected, status, printing_after, errors = result
     LAST["fw"], LAST["expected"] = fw, expected
     case = getattr(fw, "case_view", case)
+    if getattr(fw, "appended", False):
+        cl.add("commands_appended_with_send_while_printing")
+    if getattr(fw, "sync_reply", False):
+        cl.add("reply_handled_before_write_returns")
     if getattr(fw, "second", None):
         cl.add("second_job_on_same_sender:" + fw.second)
     job_desc = f"job={render_job(case['job'])!r} corrupt={sorted(case['corrupt'])} " \
@@ -395,15 +415,24 @@ def job_strategy():
     n = st.integers(0, 250)
     word = st.sampled_from(["layer 1", "x", "perimeter", "G1 X5", "tool (a)", ""])
     item = st.one_of(
-        st.fixed_dictionaries({"k": st.just("cmd"), "cmd": st.integers(0, 17), "a": n, "b": n,
+        st.fixed_dictionaries({"k": st.just("cmd"), "cmd": st.integers(0, 19), "a": n, "b": n,
                                "inline": st.one_of(st.none(), st.none(), st.sampled_from(["note", "G1 X9", "a b"])),
                                "trail": st.one_of(st.none(), st.none(), word),
                                "indent": st.booleans()}),
-        st.fixed_dictionaries({"k": st.just("cmd"), "cmd": st.integers(0, 17), "a": n, "b": n}),
+        st.fixed_dictionaries({"k": st.just("cmd"), "cmd": st.integers(0, 19), "a": n, "b": n}),
         st.fixed_dictionaries({"k": st.just("comment"), "text": word}),
         st.fixed_dictionaries({"k": st.just("blank"), "text": st.sampled_from(["", "   "])}),
     )
-    return st.lists(item, min_size=1, max_size=25)
+    free = st.lists(item, min_size=1, max_size=25)
+    # a sliced job: layers of a few moves each, with heights that come back
+    # (objects printed one after the other: 0.2, 0.4, 0.2, 0.4 ...)
+    layer = st.tuples(st.sampled_from([0, 1, 2, 3]), st.lists(
+        st.fixed_dictionaries({"k": st.just("cmd"), "cmd": st.sampled_from([0, 2, 8, 13]),
+                               "a": n, "b": n}), min_size=1, max_size=3)).map(
+        lambda t: [{"k": "cmd", "cmd": 18, "a": t[0], "b": 0}] + t[1])
+    sliced = st.lists(layer, min_size=3, max_size=6).map(lambda ls: [i for l in ls for i in l])
+    from vf.hist import weighted
+    return weighted((3, free), (1, sliced))
 
 
 def strategy():
@@ -412,16 +441,29 @@ def strategy():
         "job": job_strategy(),
         "corrupt": st.one_of(st.just([]), st.lists(st.integers(0, 40), max_size=6, unique=True),
                              st.lists(st.integers(0, 12), max_size=8, unique=True)).map(sorted),
-        "lat": st.lists(st.integers(0, 6), min_size=1, max_size=7),
+        "lat": st.one_of(st.lists(st.integers(0, 6), min_size=1, max_size=7), st.just([0])),
         "dialect": st.sampled_from(["marlin", "marlin", "marlin_nospace", "teacup"]),
         "greeting": st.sampled_from(["start", None]),
+        "sync_reply": st.sampled_from([False, False, True]),
+        "append": st.sampled_from([None, None, None, ["M104 S0", "M140 S0", "M84"], ["M400"]]),
         "second": st.one_of(st.none(), st.none(), st.none(), st.fixed_dictionaries({
             "job": job_strategy(), "reconnect": st.booleans(),
             "corrupt": st.lists(st.integers(0, 12), max_size=4, unique=True).map(sorted)})),
         "companion": st.one_of(st.none(), st.none(), st.none(), st.fixed_dictionaries({
             "job": job_strategy(),
             "corrupt": st.lists(st.integers(0, 12), max_size=4, unique=True).map(sorted),
-            "lat": st.lists(st.integers(0, 6), min_size=1, max_size=4)}))})
+            "lat": st.lists(st.integers(0, 6), min_size=1, max_size=4)}))}).map(_sliced_gets_appends)
+
+
+def _sliced_gets_appends(c):
+    """Sliced jobs (recurring layer heights) are the ones where commands
+    appended with send() can land in the wrong layer: always append there,
+    under a latency that keeps the job running while send() is called."""
+    if c["job"] and c["job"][0].get("cmd") == 18 and len(c["job"]) >= 6:
+        c = dict(c, append=c.get("append") or ["M104 S0", "M140 S0", "M84"])
+        if not any(c["lat"][:2]):
+            c["lat"] = [2, 1] + list(c["lat"])
+    return c
 
 
 FIXED_JOB = [{"k": "cmd", "cmd": i, "a": i, "b": i + 1} for i in range(6)]
